@@ -894,6 +894,17 @@ func genCSV(g *gen, th bool, scale int) {
 		}
 		g.add(rows > 0, "csv rt %s", wireOf(tbl))
 	}
+	// the `comma` option: every single byte, and multi-byte characters, on both sides
+	g.add(true, "csvdelim rt -")
+	for a := 0; a < 256; a++ {
+		if a == 'a' || a == 'b' {
+			continue // the probe table is [["a","b"]]
+		}
+		g.add(true, "csvdelim rt %s", hx([]byte{byte(a)}))
+	}
+	for _, c := range []string{"§", "é", "→", "😀", "xy", ";;", "\u00a0", "Â", "\u2028", "é,", ",é"} {
+		g.add(true, "csvdelim rt %s", hx([]byte(c)))
+	}
 	// from_csv: every text of <= 5 (thorough: 6) symbols over the structural alphabet
 	dalpha := []byte("a,\"\n\r# ")
 	maxN := 4
